@@ -253,8 +253,7 @@ theorem members_norm_eq (src : Source) (wf : SrcWF src) (rp rp' : RPar) (hrp : r
 /-- where `_subset_parent` is asked for: a non-inverted range which — when the collection has sequence — lies
     within the bounds (position queries) or, on a chunk, contains them (id queries: clamped to the bounds) -/
 def SubsetDomain (src : Source) (bs be start stop : Int) : Prop :=
-  start ≤ stop ∧
-  ((locRange src).isSome = true → start < stop →
+  (locRange src).isSome = true → start ≤ stop ∧ (start < stop →
     (bs ≤ start ∧ stop ≤ be) ∨ (src.par.isChunk = true ∧ start ≤ bs ∧ be ≤ stop))
 
 theorem subsetParent_null (src : Source) (bs be : Int) (hb : selfBounds src = some (bs, be)) (start : Int) :
@@ -285,7 +284,6 @@ theorem subsetParent_spec (src : Source) (wf : SrcWF src) (bs be : Int) (hb : se
       (∀ a b, rp ≠ .chunk a b []) ∧ RPShape src rp := by
   have hpar := wf.par
   unfold ParWF at hpar
-  obtain ⟨hle, hdom⟩ := hdom
   cases hp : src.par with
   | none =>
     refine ⟨RPar.none, subsetParent_none src hp _ _, ?_, ?_, trivial⟩
@@ -300,6 +298,7 @@ theorem subsetParent_spec (src : Source) (wf : SrcWF src) (bs be : Int) (hb : se
     rw [hp] at hpar
     have hbw := bounds_whole wf hp hb
     have hloc := locRange_whole wf hp hb
+    obtain ⟨hle, hdom⟩ := hdom (by rw [hloc]; rfl)
     by_cases he : start = stop
     · subst he
       refine ⟨RPar.none, subsetParent_null src bs be hb start, ?_, ?_, trivial⟩
@@ -307,7 +306,7 @@ theorem subsetParent_spec (src : Source) (wf : SrcWF src) (bs be : Int) (hb : se
       · intro a b h; cases h
     · have hlt : start < stop := by omega
       have hin : bs ≤ start ∧ stop ≤ be := by
-        rcases hdom (by rw [hloc]; rfl) hlt with h | h
+        rcases hdom hlt with h | h
         · exact h
         · have := h.1; rw [hp] at this; simp [Par.isChunk] at this
       refine ⟨_, subsetParent_whole src seq hp bs be hb ⟨hbw.1, hbw.2.2⟩ start stop ⟨hin.1, hlt, hin.2⟩, ?_, ?_, ?_⟩
@@ -341,13 +340,14 @@ theorem subsetParent_spec (src : Source) (wf : SrcWF src) (bs be : Int) (hb : se
     by_cases hov : max bs cs < min be (cs + (seq.length : Int))
     · have hin' := hbc.2 hov
       rw [if_pos hov] at hloc
+      obtain ⟨hle, hdom⟩ := hdom (by rw [hloc]; rfl)
       by_cases he : start = stop
       · subst he
         refine ⟨RPar.none, subsetParent_null src bs be hb start, ?_, ?_, trivial⟩
         · unfold expectPar; rw [hp, hloc]; simp only [Par.seqAt, Int.le_refl, if_true]
         · intro a b h; cases h
       · have hlt : start < stop := by omega
-        have hd := hdom (by rw [hloc]; rfl) hlt
+        have hd := hdom hlt
         have hcl : max bs cs ≤ max start bs ∧ max start bs < min stop be ∧
             min stop be ≤ min be (cs + (seq.length : Int)) := by
           rcases hd with h | h <;> omega
@@ -457,7 +457,7 @@ theorem queryByPosition_meets (src : Source) (q : PosQ) (wf : SrcWF src) (b : In
       obtain ⟨r, hr, hrn⟩ := buildNew_meets src wf bs be hb _ _ hpermK
         (fun c hc => (List.mem_filter.mp hc).1)
         (nodup_guid_filter wf.guids _) ns ne
-        ⟨by omega, fun h => by rw [hl] at h; cases h⟩
+        (fun h => by rw [hl] at h; cases h)
       rw [hr]
       simp only [toAns, meets, beq_iff_eq]
       exact hrn
@@ -474,7 +474,7 @@ theorem queryByPosition_meets (src : Source) (q : PosQ) (wf : SrcWF src) (b : In
         obtain ⟨r, hr, hrn⟩ := buildNew_meets src wf A B hb _ _ hpermK
           (fun c hc => (List.mem_filter.mp hc).1)
           (nodup_guid_filter wf.guids _) ns ne
-          ⟨by omega, fun _ _ => Or.inl (by omega)⟩
+          (fun _ => ⟨by omega, fun _ => Or.inl (by omega)⟩)
         rw [hr]
         simp only [toAns, meets, beq_iff_eq]
         exact hrn
